@@ -302,8 +302,10 @@ def to_coq(c, o):
     if op == "pow10":
         return "CPow %s %s" % (coq_z(c["pow10"]), coq_float_bits(o["pow10"]))
     if op in RKINDS:
-        return "CRound %s %s %s %s %s %s" % (RKINDS[op], coq_value(ev["x"]), coq_optv(ev.get("p"), "p" in ev),
-                                             coq_z(c["pow10"]), coq_float_bits(o["pow10"]), coq_iout(st[0]))
+        cls = case_class(c, o)
+        return "CRound %s %s %s %s %s %s %s" % (RKINDS[op], coq_value(ev["x"]), coq_optv(ev.get("p"), "p" in ev),
+                                                coq_z(c["pow10"]), coq_float_bits(o["pow10"]),
+                                                "(Some %s)" % cls if cls else "None", coq_iout(st[0]))
     if op == "abs":
         return "CAbs %s %s" % (coq_value(ev["x"]), coq_iout(st[0]))
     if op == "mod":
@@ -329,7 +331,64 @@ def nontrivial(c):
     return c["op"] != "pow10"
 
 
+# ------------------------------------------------------------------------------------------------
+# the regimes of round_to_precision (mirrors Model/NumFns.v round_class; `check` compares the two on every case)
+# ------------------------------------------------------------------------------------------------
+
+def f_rint(kind, t):
+    if math.isinf(t) or math.isnan(t) or abs(t) >= 2.0**52:
+        return t
+    if kind == "floor":
+        return math.copysign(float(math.floor(t)), t) if math.floor(t) == 0 else float(math.floor(t))
+    if kind == "ceil":
+        return math.copysign(float(math.ceil(t)), t) if math.ceil(t) == 0 else float(math.ceil(t))
+    n = math.floor(abs(t))
+    if abs(t) - n >= 0.5:        # exact: |t| < 2^52
+        n += 1
+    return math.copysign(float(n), t)
+
+
+def round_class(kind, xbits, p, mbits):
+    x, m = float_of(xbits), float_of(mbits)
+    if math.isinf(m) or math.isnan(m) or m == 0:
+        return "RcRange"
+    t = x * m
+    if x != 0 and (t == 0 or math.isinf(t)):
+        return "RcRange"
+    q = f_rint(kind, t) / m
+    if math.isinf(q) or math.isnan(q):
+        return "RcRange"
+    if abs(t) >= 2.0**52:
+        return "RcBig"
+    if p < 0 or p > 22:
+        return "RcInexactMult"
+    if Fraction(x) * Fraction(m) != Fraction(t):
+        return "RcProductRounds"
+    return "RcGood"
+
+
+def case_class(case, out):
+    """regime of a round/ceil/floor case with a finite float argument and an integer (or default) precision"""
+    if case["op"] not in RKINDS:
+        return None
+    x = case["ev"].get("x")
+    if not (isinstance(x, dict) and "f" in x):
+        return None
+    if "p" in case["ev"] and not (isinstance(case["ev"]["p"], dict) and "i" in case["ev"]["p"]):
+        return None
+    xb = int(x["f"], 16)
+    if (xb >> 52) & 0x7ff == 0x7ff:
+        return None
+    return round_class(case["op"], xb, int(case["pow10"]), int(out["pow10"], 16))
+
+
 def known_matcher(entry, case, out):
+    m = entry["match"]
+    if m.get("op") == "abs":
+        return (case["op"] == "abs" and case["ev"]["x"] == {"i": str(I64_MIN)} and "panic" in out["steps"][0])
+    if m.get("op") == "round":
+        cls = case_class(case, out)
+        return cls is not None and cls != "RcGood" and cls == m["class"]
     return False
 
 
